@@ -20,16 +20,20 @@ CFG = {
                   "(results that depend on Go's iteration order are compared as sorted collections; order independence of Merge/Copy/DeleteFunc under other iteration orders is "
                   "exercised on the real map, not proved); a write through a nil map panics in model and Spec exactly as an ordinary Go map does "
                   "(reachable only through NewUnsafeComparableBMapByMap(nil) / Comparable receivers - reported as a remark, not judged a violation). "
-                  "Where the Spec follows the code although a strict reading of the property disagrees (new findings, evidence in findings/C06-N*.json, NOT judged violations by the check): "
-                  "N1 DeleteE/DeleteToSliceE/DeleteToBSliceE return no error for any range on an EMPTY receiver (C06_N1_..._refuted); N2 SetByRange(E) appends es at the end, ignoring the index, "
-                  "when index+len(es) > len, and accepts index > len (C06_N2_..._refuted); N3 NewUnsafeComparableBMapByMap(nil) keeps the nil map so Put panics (C06_N3_...); "
-                  "N4 GrowE panics when the runtime cannot allocate the amount - memory is unbounded in the model, so 'never Panic' is proved modulo allocation failure. "
+                  "Further defects found by this check and repaired (patches notes/fixes/0035-0038, evidence findings/C06-N*.json; the Spec judges them by the property text, "
+                  "the pre-repair code paths are kept in Defects.v with C06_N1..N4_unrepaired_refuted): N1 the Delete family reported no error for an invalid range on an EMPTY receiver; "
+                  "N2 SetByRange(E) appended es at the end whatever the index when index+len(es) > len (Spec reading: overwrite from the index, extend past the end; an index beyond len "
+                  "is clamped to len, NOT an error, because the package's own test table TestUnsafeAnyBSlice_SetByRange expects index 2 on an empty receiver to append without error); "
+                  "N3 NewUnsafeComparableBMapByMap(nil) kept the nil map so Put panicked (the constructor is step 0 of every bmap case, ONew); "
+                  "N4 GrowE panicked when the runtime refuses the amount: Spec.alloc_limit = 2^45 ints (runtime maxAlloc), growing to len+n >= alloc_limit must be an error; "
+                  "amounts below the limit are assumed allocatable (no out-of-memory in the model; the harness uses amounts <= len+10 or >= 2^46). Theorems carry the premise "
+                  "fits s (cap below alloc_limit), true of every real slice. "
                   "C06_D9/D10/D11_unrepaired_refuted show that the pre-repair code paths violate C06_copy / C06_cap.",
     "harness": "c06",
     "theorems": [("C06.Props", [
         "C06_pure", "C06_errors", "C06_copy", "C06_cap", "C06_search", "C06_bmap", "C06_fmap_laws",
         "C06_D9_unrepaired_refuted", "C06_D10_unrepaired_refuted", "C06_D11_unrepaired_refuted",
-        "C06_N1_delete_on_empty_strict_refuted", "C06_N2_setbyrange_overwrite_refuted", "C06_N3_nil_map_write_panics"])],
+        "C06_N1_unrepaired_refuted", "C06_N2_unrepaired_refuted", "C06_N3_unrepaired_refuted", "C06_N4_unrepaired_refuted"])],
     "trusted": [
         "capacity oracle of append/Grow/Clone/Filter/Unmarshal: universally quantified in the theorems (any oc); in the tie it is instantiated with the capacity the Go runtime chose",
         "sorting and JSON codecs are modelled abstractly (stable insertion sort on the loaded window; decoded JSON data)",
